@@ -179,7 +179,7 @@ def spelling_probe(ctx):
     from harness import clientsim as cs
     from harness.refserver import Server
     found, n = [], 0
-    keys = ["key-%d" % i for i in range(16)] + [b"bkey-%d" % i for i in range(6)] + [("sk-%d" % i, "inner-%d" % i) for i in range(3)]
+    keys = ["key-%d" % i for i in range(16)] + [b"bkey-%d" % i for i in range(6)] + [("sk-%d" % i, "inner-%d" % i) for i in range(3)] + ["aa", "ba", b"ab", b"zz"]
     bare = lambda k: k[1] if isinstance(k, tuple) else k
     for servers in SPELLED:
         for pooling in (False, True):
@@ -232,7 +232,7 @@ def search(ctx):
             prefix = rng.choice([b"", b"p:"])
             hc = HC(servers, key_prefix=prefix, retry_attempts=rng.choice([0, 1, 2]), retry_timeout=1, dead_timeout=30,
                     ignore_exc=True)
-            keys = ["key-%d" % i for i in range(12)] + [b"bkey-%d" % i for i in range(4)] + [("sk-%d" % i, "inner-%d" % i) for i in range(3)] + [("sk-%d" % i, "shared") for i in range(4)] + ["shared"]
+            keys = ["key-%d" % i for i in range(12)] + [b"bkey-%d" % i for i in range(4)] + [("sk-%d" % i, "inner-%d" % i) for i in range(3)] + [("sk-%d" % i, "shared") for i in range(4)] + ["shared"] + ["aa", "ba", "xa", b"ab", "k"]      # (keys of length 2 are keys, not pairs)
             hist = []
             for step in range(rng.randrange(1, 12)):
                 ev = rng.random()
